@@ -141,7 +141,10 @@ def gen_constants(extra_private=()):
     out = sh([harness_bin("consts")]).stdout
     for line in out.strip().split("\n"):
         k, v = line.split("\t")
-        vals.append((k, int(v)))
+        if v.startswith("["):
+            vals.append((k, [int(t) for t in v.strip("[]").split(";") if t]))
+        else:
+            vals.append((k, int(v)))
     for name, rel, rx in list(PRIVATE_CONSTS) + list(extra_private):
         src = open(os.path.join(REPO, rel)).read()
         m = re.search(rx, src)
@@ -149,9 +152,12 @@ def gen_constants(extra_private=()):
             raise CheckError("constant extractor: %s not found in %s (pattern %s)" % (name, rel, rx))
         vals.append((name, _parse_int(m.group(1))))
     body = ["(* GENERATED on every run by lib/vlib.py:gen_constants from /repo - do not edit. *)",
-            "From Coq Require Import ZArith.", "Open Scope Z_scope.", ""]
+            "From Coq Require Import ZArith List.", "Import ListNotations.", "Open Scope Z_scope.", ""]
     for k, v in vals:
-        body.append("Definition %s : Z := %d." % (k, v))
+        if isinstance(v, list):
+            body.append("Definition %s : list Z := [%s]." % (k, "; ".join(str(t) for t in v)))
+        else:
+            body.append("Definition %s : Z := %d." % (k, v))
     text = "\n".join(body) + "\n"
     path = os.path.join(COQ, "Generated", "Constants.v")
     old = open(path).read() if os.path.exists(path) else None
@@ -264,14 +270,17 @@ def build_model(group):
         raise CheckError("extracted model missing: %s" % ml)
     exe = os.path.join(gdir, "modelrun")
     stamp = os.path.join(gdir, "stamp")
+    uses_h = "dispatch_h" in open(os.path.join(gdir, "model.mli")).read()
+    drv = "driver_h.ml" if uses_h else "driver.ml"
     h = hashlib.sha256()
-    for f in (ml, os.path.join(gdir, "model.mli"), os.path.join(MODEL, "driver.ml")):
+    for f in (ml, os.path.join(gdir, "model.mli"), os.path.join(MODEL, drv)):
         h.update(open(f, "rb").read())
     dig = h.hexdigest()
     if os.path.exists(exe) and os.path.exists(stamp) and open(stamp).read() == dig:
         return exe
-    sh(["cp", os.path.join(MODEL, "driver.ml"), os.path.join(gdir, "driver.ml")])
-    sh(["ocamlfind", "ocamlopt", "-O3" if False else "-inline", "100", "-w", "-a", "model.mli", "model.ml", "driver.ml", "-o", "modelrun"],
+    sh(["cp", os.path.join(MODEL, drv), os.path.join(gdir, "driver.ml")])
+    pk = ["-package", "unix", "-linkpkg"] if uses_h else []
+    sh(["ocamlfind", "ocamlopt"] + pk + ["-inline", "100", "-w", "-a", "model.mli", "model.ml", "driver.ml", "-o", "modelrun"],
        cwd=gdir, timeout=1200)
     open(stamp, "w").write(dig)
     return exe
@@ -287,8 +296,10 @@ def run_model(group, lines, shards=None):
     parts = [lines[i:i + size] for i in range(0, len(lines), size)]
 
     def one(part):
+        env = dict(os.environ)
+        env["VERIF_HASHD"] = harness_bin("hashd")
         p = subprocess.run(["bash", "-c", "ulimit -s unlimited 2>/dev/null; exec %s" % exe], input="\n".join(part) + "\n",
-                           stdout=subprocess.PIPE, stderr=subprocess.PIPE, text=True, timeout=3000)
+                           stdout=subprocess.PIPE, stderr=subprocess.PIPE, text=True, timeout=3000, env=env)
         if p.returncode != 0:
             raise CheckError("modelrun failed: %s" % p.stderr[-2000:])
         out = p.stdout.split("\n")
